@@ -319,17 +319,37 @@ func freshListOwner(p *Program, rl *relLiteral) string {
 	if !ok {
 		return ""
 	}
-	for use := range forwardFlow(ia.X, nil) {
-		if st, ok := use.(*ssa.Store); ok {
-			chain, _ := addrChain(st.Addr)
-			for _, f := range chain {
-				if f != nil && (f.Name() == "relationships" || f.Name() == "documentRelationships") && fieldIs(p, f, pkgDoc, "Document", f.Name()) {
-					return f.Name()
+	find := func(v ssa.Value) (string, []ssa.Value) {
+		var next []ssa.Value
+		for use := range forwardFlow(v, nil) {
+			if st, ok := use.(*ssa.Store); ok {
+				chain, root := addrChain(st.Addr)
+				for _, f := range chain {
+					if f != nil && (f.Name() == "relationships" || f.Name() == "documentRelationships") && fieldIs(p, f, pkgDoc, "Document", f.Name()) {
+						return f.Name(), nil
+					}
+				}
+				// stored into a field of a local Relationships object: continue from that object
+				if al, ok := root.(*ssa.Alloc); ok && typeIs(al.Type(), pkgDoc, "Relationships") {
+					next = append(next, al)
 				}
 			}
 		}
+		return "", next
 	}
-	return ""
+	name, next := find(ia.X)
+	for depth := 0; name == "" && len(next) > 0 && depth < 3; depth++ {
+		var nn []ssa.Value
+		for _, v := range next {
+			n2, more := find(v)
+			if n2 != "" {
+				return n2
+			}
+			nn = append(nn, more...)
+		}
+		next = nn
+	}
+	return name
 }
 
 // ---------------------------------------------------------------------------
